@@ -89,7 +89,7 @@ func cmdFunc(args []string) {
 			continue
 		}
 		gen := time.Since(t0)
-		solveAll(P, r.Obls, *timeout, false, 6)
+		solveAll(P, r.Obls, *timeout, false, 5)
 		bad := 0
 		for _, o := range r.Obls {
 			ok := o.Result.Verdict == "unsat"
